@@ -316,6 +316,10 @@ def check(ctx):
     # ---------------------------------------------------------------- C14.5 names
     from .envnames import check_names
     check_names(ctx, an, model)
+    # the prefix is inherited along the schema chain that `schema.child.x = ...` walks: those accessors ask `if not field:` --
+    # shared clause on the truthiness of schema objects
+    from .common import check_truthiness_protocol
+    check_truthiness_protocol(ctx)
 
     # ---------------------------------------------------------------- C14.5b every field that enters a field table is told its key
     # (__setkey__ is where the variable name / nested prefix is derived: a field stored without it never gets one)
